@@ -993,7 +993,12 @@ func (ch *Chain) CancelWithRcode(rcode int, do bool) {
 	// private options, its advertised size, even extra records. Only the
 	// cookie option crosses over: BADCOOKIE exists to carry the server
 	// cookie back against the client cookie that was sent.
-	if ropt := req.IsEdns0(); ropt != nil {
+	//
+	// "Had one" is the client's fact, not the message's: behind the edns
+	// handler (recovery answering for a panic further down) the request
+	// message carries the OPT added for the upstream even when the client
+	// speaks plain RFC 1035.
+	if ropt := req.IsEdns0(); ropt != nil && ch.Request.HasOPT() {
 		opt := &dns.OPT{Hdr: dns.RR_Header{Name: ".", Rrtype: dns.TypeOPT}}
 		opt.SetUDPSize(dnsutil.DefaultMsgSize)
 		opt.SetDo(do)
